@@ -1,5 +1,6 @@
 """C11 — format/version information is the standard BCH code and is read robustly."""
 ID = 'C11'
+PROP_MODULES = ['QRV.Props.C11', 'QRV.Props.C11Positions']
 OPTIONAL_GROUPS = ['verif_fmt']
 EXHAUSTIVE = True
 EXHAUSTIVE_TIERS = ('thorough',)
@@ -19,9 +20,9 @@ MANIFEST = {
     'technique': 'Lean 4: kernel-evaluated BCH tables + minimum distance, generic first-minimum-scan lemma (triangle inequality) for accept<=2/reject>=3; exhaustive differential runs',
     'text': ('QRV/Props/C11.lean: the regenerated format/version tables are the BCH(15,5)/(18,6) codewords with the prescribed masks (kernel evaluation of the whole tables); any '
              'raw word within 2 of a codeword is read as that codeword and any word >= 3 from all is rejected, for ALL raw words at once via a generic lemma on first-minimum scans over '
-             'a code of minimum distance >= 5; the two-copy fallback logic. Placement and the bitmap-level two-copy behaviour are tied by exhaustive differential runs against a python '
+             'a code of minimum distance >= 5; the two-copy fallback logic. Props/C11Positions.lean: the raw words those scans work on are read, bit by bit, from the modules the declarative symbols assign to the format bits (QR both copies, Micro QR, rMQR both copies), for every regular bitmap. Placement and the bitmap-level two-copy behaviour are additionally tied by exhaustive differential runs against a python '
              'reference (all words x all weight<=2 patterns x other-copy variants).'),
-    'note': 'Trusted: Lean kernel; verifdump; python BCH/module-position reference; bitmap-level reading positions are checked by correspondence, not proved.',
+    'note': 'Trusted: Lean kernel; verifdump; python BCH/module-position reference; the model's reading positions are proved to be the standard's; the model itself is tied to the Go code by correspondence.',
 }
 
 
